@@ -138,6 +138,9 @@ class BaseIntervalScorer(BaseEstimator):
         """
         self.check_is_fitted()
         cuts = as_2d_array(cuts, vector_as_column=False)
+        if np.issubdtype(cuts.dtype, np.unsignedinteger):
+            # Interval lengths are negated and subtracted, which wraps for unsigned types.
+            cuts = cuts.astype(np.int64)
         cuts = self._check_cuts(cuts)
         n_samples = len(self._X)
         if cuts.size > 0 and (cuts.min() < 0 or cuts.max() > n_samples):
